@@ -64,7 +64,9 @@ def sweep(modname, ctx, n_cases, n_seeds, group=4):
     groups = [hs[i:i + group] for i in range(0, len(hs), group)]
     futs = []
     # spread cases x seed-groups over the pool
-    per_task = max(10, (n_cases * len(groups) + ctx["jobs"] - 1) // ctx["jobs"] // len(groups))
+    # about one task per pool worker in total: every task has to start its own interpreters
+    splits = max(1, ctx["jobs"] // len(groups))
+    per_task = max(10, (n_cases + splits - 1) // splits)
     # indices offset so that the sweep sees other cases than the simulated phase start
     for g in groups:
         lo = 0
